@@ -35,8 +35,9 @@ def gen_other_pset(rng, ps0, cls):
     g0 = ps0["group"]
     ps1 = copy.deepcopy(ps0)
     choices = ["seed:M", "seed:N", "seed:S", "shipped", "seed:MN-shift", "seed:MN-swap"]
-    if g0["kind"] in ("int", "i1024"):
-        choices += ["group-pwmap"]
+    if g0["kind"] == "i1024" or (g0["kind"] == "int" and gen.is_negligible(g0)):
+        # (only where the two password mappings cannot coincide on the fingerprinted scalar by chance)
+        choices += ["group-pwmap", "group-pwmap"]
     if g0["kind"] == "int":
         choices += ["generator-only", "generator-only", "generator-only"]
         if gen.is_negligible(g0):
